@@ -230,6 +230,10 @@ func streamC02(r *Rand, n int, o *Out) {
 		check(h)
 		o.EmitHist("t", h)
 	}
+	if n >= 20000 {
+		// thorough tier: a stride through all 2^19 subsets of the option constructors on a fixed input pool
+		streamC02Subsets(r, o, 41+r.N(7))
+	}
 }
 
 // all subsets of the option constructors on a fixed input pool (thorough tier of C02)
